@@ -34,18 +34,18 @@ theorem foldl_step_ok (cfg : Cfg) (root : String) :
 
 /-- after `Initialize` and any sequence of edits the workspace invariant holds for the
     directory as it then is, and the root is the one chosen at initialisation -/
-theorem run_ok (cfg : Cfg) (σ : List String) (fs : FS) (us : List Upd) (hok : fsOk fs = true)
+theorem run_ok (cfg : Cfg) (fs : FS) (us : List Upd) (hok : fsOk fs = true)
     (hne : fs ≠ []) (hclean : graphsClean cfg fs) (hlim : fs.length ≤ cfg.limit)
     (hus : updsOk us = true) :
-    WInv cfg (finalFs fs us) (run cfg σ fs us).w ∧ fsOk (finalFs fs us) = true ∧
-    (run cfg σ fs us).w.root = rootSel fs ∧ (run cfg σ fs us).fs = finalFs fs us := by
-  obtain ⟨i1, i2, _⟩ := init_ok cfg σ fs hok hne hclean hlim
-  have hstart : RunOk cfg (start cfg σ fs).fs (rootSel fs) (start cfg σ fs) :=
+    WInv cfg (finalFs fs us) (run cfg fs us).w ∧ fsOk (finalFs fs us) = true ∧
+    (run cfg fs us).w.root = rootSel fs ∧ (run cfg fs us).fs = finalFs fs us := by
+  obtain ⟨i1, i2, _⟩ := init_ok cfg fs hok hne hclean hlim
+  have hstart : RunOk cfg (start cfg fs).fs (rootSel fs) (start cfg fs) :=
     ⟨observe_winv cfg fs _ i1, hok, by
-      show (observe (init cfg σ fs)).2.root = _
+      show (observe (init cfg fs)).2.root = _
       rw [observe_snd]; exact i2⟩
-  obtain ⟨r1, r2⟩ := foldl_step_ok cfg (rootSel fs) us (start cfg σ fs) hstart hus
-  have hfs : (start cfg σ fs).fs = fs := rfl
+  obtain ⟨r1, r2⟩ := foldl_step_ok cfg (rootSel fs) us (start cfg fs) hstart hus
+  have hfs : (start cfg fs).fs = fs := rfl
   rw [hfs] at r2
   unfold run
   exact ⟨by have := r1.inv; rw [r2] at this; exact this, by have := r1.ok; rw [r2] at this; exact this,
